@@ -7,3 +7,26 @@ Lemma qp_parse_exact chk : parse_exact_hyp (qp_parse chk) write_message wf_messa
 Proof.
   intros m tail Hwf. unfold qp_parse. rewrite (C10_body_roundtrip chk m tail Hwf). reflexivity.
 Qed.
+
+Lemma max_lt_two64' : max_message_size < two64.
+Proof. vm_compute. reflexivity. Qed.
+
+(* Codec::decode never panics and never loops on a buffer outside the class F2, in both build profiles *)
+Lemma codec_decode_total chk buf : codec_overrun buf = false ->
+  codec_decode chk buf <> DPanic /\ codec_decode chk buf <> DLoop.
+Proof.
+  unfold codec_overrun, codec_decode, frame_decode. destruct (uv_decode buf) as [n rest| | |]; intros Hno;
+    try (split; discriminate).
+  destruct (max_message_size <? n) eqn:E1; [split; discriminate|].
+  destruct (len rest <? n) eqn:E2; [split; discriminate|]. cbn [orb] in Hno.
+  assert (Hn : n < two64) by (pose proof max_lt_two64'; lia).
+  assert (Hl : n <= len rest) by lia.
+  assert (Hov : ~ Overrun rest n) by (unfold Overrun; rewrite Hno; discriminate).
+  unfold qp_parse. destruct (C08_decode_total chk rest n Hn Hl Hov) as [(m & s & ->)| ->]; split; discriminate.
+Qed.
+
+(* the witness of the known finding: the 18-byte frame panics with overflow checks and loops without *)
+Lemma codec_decode_f2 :
+  let frame := 17 :: f2_witness in
+  codec_overrun frame = true /\ codec_decode true frame = DPanic /\ codec_decode false frame = DLoop.
+Proof. vm_compute. repeat split; reflexivity. Qed.
